@@ -406,6 +406,12 @@ func (g *gen) espec(allowDP bool) espec {
 		if allowDP {
 			e.V = []vspec{{Atoms: []atom{g.atom("dp")}}}
 		}
+	case 7:
+		// two or three comparers of ONE kind with different tolerances: Equal(a, b) accepts only what both accept
+		k := kinds[g.r.Intn(3)]
+		for n := 2 + g.r.Intn(2); n > 0; n-- {
+			e.V = append(e.V, vspec{Atoms: []atom{g.atom(k)}})
+		}
 	}
 	return e
 }
@@ -466,7 +472,7 @@ func (g *gen) pair() (x, y proto.Message, label string) {
 
 func runEquator(f lib.Flags, res *lib.Result, drv *lib.Driver, ms *monitors) {
 	tie := res.Tie("equator", "K1",
-		"random pairs: ancestor of a random type (TestAllTypes, WellKnown, PullAirTemperatureResponse(.Change), PullOnOffResponse, ForeignMessage) populated from tiny domains; y = ancestor mutated in 0-3 places (scalar set/clear/default, float nudge/NaN/±Inf/-0, message clear/empty/replace, Timestamp/Duration nudge, list append/truncate/swap/element, map set/delete/value, unknown-field append/drop/swap/swap-adjacent/replace/repeat-a-number/replace-with-same-length over varint, bytes, fixed32, fixed64 and group records of three numbers), x sometimes mutated once; top-level nil / typed nil / other type; comparer = Equal(), Equal(tolerances around the introduced differences), ValueAnd/ValueOr inside, And/Or outside. Each case is evaluated on (x,y),(y,x),(x,x),(y,y). Non-trivial: distinct (spec,x,y) whose (x,y) verdict is false or which carries a mutation")
+		"random pairs: ancestor of a random type (TestAllTypes, WellKnown, PullAirTemperatureResponse(.Change), PullOnOffResponse, ForeignMessage) populated from tiny domains; y = ancestor mutated in 0-3 places (scalar set/clear/default, float nudge/NaN/±Inf/-0, message clear/empty/replace, Timestamp/Duration nudge, list append/truncate/swap/element, map set/delete/value, unknown-field append/drop/swap/swap-adjacent/replace/repeat-a-number/replace-with-same-length over varint, bytes, fixed32, fixed64 and group records of three numbers), x sometimes mutated once; top-level nil / typed nil / other type; comparer = Equal(), Equal(tolerances around the introduced differences; also several of one kind), ValueAnd/ValueOr inside, And/Or outside. Each case is evaluated on (x,y),(y,x),(x,x),(y,y). Non-trivial: distinct (spec,x,y) whose (x,y) verdict is false or which carries a mutation")
 	g := &gen{r: lib.NewRand(f.Seed)}
 	n := f.N(6000, 120000)
 	const batch = 500
